@@ -6,7 +6,7 @@
   the quota when `accept_equal` is off; `capQ` holds the whole quotas at the party's cap (`max_seats`);
   `wholeAward = max (capQ (wholeQ) − prev) 0`.  The model is `VL.QD.quotaDistribute` / `VL.QD.largestRemainder`
   (VotelibModel/QuotaDist.lean), which is what the driver runs; it mirrors the code after the repairs 9571110
-  (caps) and 24bad1e (constant-quota error message).  All theorems hold for every well-formed request — there is
+  (caps), 24bad1e (constant-quota error message) and eca6e34 (a non-positive quota is refused).  All theorems hold for every well-formed request — there is
   no cap-related side condition any more.  The defects the two repairs removed stay recorded as
   `prefix_*_witness` theorems about the pre-repair model `VL.QDPre` (VotelibModel/QuotaDistPreFix.lean).
 -/
@@ -99,7 +99,7 @@ theorem qd_whole_quotas (cfg : Cfg) (votes : Votes) (n : Nat) (prev maxS : IMap)
     (hq : 0 < cfg.quota (sumVals votes) n) :
     quotaDistribute cfg votes n prev maxS =
       applyPolicy cfg votes n prev (wholeSel (cfg.quota (sumVals votes) n) cfg.acceptEqual prev maxS votes) := by
-  rw [quotaDistribute_eq cfg votes n prev maxS (ne_of_gt hq) hwf.keys_nodup,
+  rw [quotaDistribute_eq cfg votes n prev maxS hq hwf.keys_nodup,
     filterMap_awardOf_eq hq cfg.acceptEqual prev maxS votes hwf.votes_nonneg hwf.prev_nonneg]
 
 /-- the value of the whole-quota dict at a party: `max (capQ (wholeQ) − prev) 0`; without a cap on the party this
@@ -184,24 +184,72 @@ theorem qd_policy_honoured (cfg : Cfg) (votes : Votes) (n : Nat) (prev maxS : IM
    fun _ hpol => qd_policy_ignore cfg votes n prev maxS hwf hq hpol,
    fun hgt hpol r hr => qd_policy_subtract_total cfg votes n prev maxS hwf hq hpol hgt r hr⟩
 
-/-- with a positive quota the only exceptions that can escape `QuotaDistributor.evaluate` are the declared
-    `VotingSystemError` and, from the withdrawal loop, `IndexError` (nobody left to withdraw from) — no
-    `ZeroDivisionError` any more (`Model:NestedTie` is the model's own marker for the one unmodelled shape) -/
-theorem qd_errors (cfg : Cfg) (votes : Votes) (n : Nat) (prev maxS : IMap) (hwf : WF votes prev)
-    (hq : 0 < cfg.quota (sumVals votes) n) (e : Err) (he : quotaDistribute cfg votes n prev maxS = .error e) :
+/-- **A non-positive quota is refused** with the declared `VotingSystemError` before anything is divided
+    (repair eca6e34; e.g. the rounded quotas round to 0 when the votes are fewer than half the seats) -/
+theorem qd_refuses_nonpositive_quota (cfg : Cfg) (votes : Votes) (n : Nat) (prev maxS : IMap)
+    (hq : cfg.quota (sumVals votes) n ≤ 0) :
+    quotaDistribute cfg votes n prev maxS = .error .votingSystemError ∧
+    largestRemainder cfg votes n prev maxS = .error .votingSystemError := by
+  have h := quotaDistribute_nonpos cfg votes n prev maxS hq
+  refine ⟨h, ?_⟩
+  unfold largestRemainder
+  rw [h]
+
+/-- **The refusal set, for EVERY quota callable and every input** (no hypothesis at all): the only exceptions
+    that can escape `QuotaDistributor.evaluate` are the declared `VotingSystemError` (non-positive quota, or policy
+    `'error'`) and, from the withdrawal loop, `IndexError` (nobody left to withdraw from).  `ZeroDivisionError` is
+    unreachable.  (`Model:NestedTie` is the model's own marker for the one unmodelled shape.) -/
+theorem qd_errors (cfg : Cfg) (votes : Votes) (n : Nat) (prev maxS : IMap) (e : Err)
+    (he : quotaDistribute cfg votes n prev maxS = .error e) :
+    e = .votingSystemError ∨ e = indexErr ∨ e = nestedTie :=
+  quotaDistribute_err he
+
+/-- the same for `LargestRemainder.evaluate`: its own `Fraction(n_votes, quota_number)` is only reached after its
+    `QuotaDistributor` has accepted the quota as positive -/
+theorem lr_errors (cfg : Cfg) (votes : Votes) (n : Nat) (prev maxS : IMap) (e : Err)
+    (he : largestRemainder cfg votes n prev maxS = .error e) :
     e = .votingSystemError ∨ e = indexErr ∨ e = nestedTie := by
-  rw [qd_whole_quotas cfg votes n prev maxS hwf hq] at he
-  unfold applyPolicy at he
-  simp only at he
+  unfold largestRemainder at he
   split at he
-  · cases hpol : cfg.onOver with
-    | ignore => rw [hpol] at he; cases he
-    | error => rw [hpol] at he; injection he with he; exact Or.inl he.symm
-    | subtract =>
-      rw [hpol] at he
-      simp only [subtractOveraward] at he
-      exact Or.inr (subtractLoop_err _ _ he)
-  · cases he
+  · rename_i e' hqd
+    injection he with he
+    rw [← he]; exact quotaDistribute_err hqd
+  · rename_i r hqd
+    have hpos := quotaDistribute_ok_pos hqd
+    simp only at he
+    rw [if_neg (fun hh => (ne_of_gt hpos) hh.1)] at he
+    cases he
+
+/-- `VotingSystemError` is raised exactly for a non-positive quota or an over-award under policy `'error'` -/
+theorem qd_error_iff (cfg : Cfg) (votes : Votes) (n : Nat) (prev maxS : IMap) (hwf : WF votes prev) :
+    quotaDistribute cfg votes n prev maxS = .error .votingSystemError ↔
+      (cfg.quota (sumVals votes) n ≤ 0 ∨
+        (cfg.onOver = .error ∧
+          (n : Int) < totalAwarded (cfg.quota (sumVals votes) n) cfg.acceptEqual prev maxS votes)) := by
+  constructor
+  · intro h
+    by_cases hq : cfg.quota (sumVals votes) n ≤ 0
+    · exact Or.inl hq
+    · right
+      have hq' : 0 < cfg.quota (sumVals votes) n := not_le.mp hq
+      rw [qd_whole_quotas cfg votes n prev maxS hwf hq'] at h
+      unfold applyPolicy at h
+      simp only at h
+      split at h
+      · rename_i hgt
+        cases hpol : cfg.onOver with
+        | ignore => rw [hpol] at h; cases h
+        | error => exact ⟨rfl, by unfold totalAwarded; omega⟩
+        | subtract =>
+          rw [hpol] at h
+          simp only [subtractOveraward] at h
+          rcases subtractLoop_err _ _ h with h' | h' <;> cases h'
+      · cases h
+  · rintro (hq | ⟨hpol, hgt⟩)
+    · exact (qd_refuses_nonpositive_quota cfg votes n prev maxS hq).1
+    · by_cases hq : cfg.quota (sumVals votes) n ≤ 0
+      · exact (qd_refuses_nonpositive_quota cfg votes n prev maxS hq).1
+      · exact qd_policy_error cfg votes n prev maxS hwf (not_le.mp hq) hpol hgt
 
 /-- **Policy `'subtract'`, one withdrawal.**  Every successful pass of the withdrawal loop looks at the margins
     `v − q·(seats + prev)` of the current holders, finds the smallest margin `m`, and
@@ -809,6 +857,10 @@ example : quotaDistribute ⟨Gen.Quota.imperiali, true, .subtract⟩ [(0, 50), (
 -- over-award by a single party beyond the house: the policy applies (finding d, repaired)
 example : quotaDistribute ⟨Gen.Quota.imperiali, true, .subtract⟩ [(0, 90), (1, 10), (2, 10)] 3 [] [] =
     .ok [(.cand 0, 3)] := by decide +kernel
+-- a quota that rounds to zero (2 votes, 9 seats, hare_rounded): refused, not divided by
+example : Gen.Quota.hare_rounded 2 9 = 0 := by decide +kernel
+example : largestRemainder ⟨Gen.Quota.hare_rounded, true, .error⟩ [(0, 2)] 9 [] [] = .error .votingSystemError := by
+  decide +kernel
 -- subtract with a tie for the smallest margin
 example : quotaDistribute ⟨Gen.Quota.imperiali, true, .subtract⟩ [(0, 50), (1, 50), (2, 50)] 4 [] [] =
     .ok [(.cand 0, 1), (.cand 1, 1), (.cand 2, 1), (.tie [0, 1, 2], 1)] := by decide +kernel
